@@ -311,7 +311,7 @@ def run(tier: str, col: common.Collector) -> None:
     if tier == "quick":
         per_worker, n_faulty, limit = 64, 10, 27
     else:
-        per_worker, n_faulty, limit = 3200, 12, 81
+        per_worker, n_faulty, limit = 1600, 12, 81
     nw = 16
     common.pmap(part, [(w, per_worker, n_faulty, limit) for w in range(nw)], col)
     col.notes["configurations"] = col.counters.get("configurations", 0)
